@@ -20,6 +20,10 @@ var c01RoundTrip = probe.Define("C01", "roundtrip", func(t *rapid.T) protIn {
 	return in
 },
 	func(in protIn) probe.Outcome {
+		if model.ChainSize(in.Msg.Payloads) > maxInnerChain {
+			// the protected form would not fit the 16-bit payload length: outside the domain (a generator slip, not the library's)
+			return probe.OK(false, "outside-domain:inner-chain-too-long")
+		}
 		saS, err := bridge.NewSA(in.Suite, in.Keys)
 		if err != nil {
 			return probe.Fail("%v", err)
